@@ -208,7 +208,10 @@ def work_seq(case):
 def _budget_check():
     """The worker's CPU budget is delivered as an exception inside the case; code under test that swallows it (bare except in a parsing loop)
     keeps running.  At every stage boundary the case gives up for good once the budget has fired."""
-    from vlib import worker
+    import sys
+    worker = sys.modules.get("__main__")            # the worker runs as ``python -m vlib.worker``: its live state is in __main__, not in an imported copy
+    if not hasattr(worker, "_TICKS"):
+        from vlib import worker
     if worker._TICKS >= worker._N_TICKS:
         raise worker.CpuBudget()
 
